@@ -324,3 +324,59 @@ Proof.
   exists ex_cfs, [H_obs 0 K_dd]. split; [reflexivity|]. split; [reflexivity|].
   vm_compute. discriminate.
 Qed.
+
+(* ================================================================== magnitudes *)
+(* the estimate does not depend on a common factor of all normalised terms (a smaller pair
+   fraction inside the scale cut, the same for data and randoms): both estimators are homogeneous
+   of degree 0, so no magnitude of the terms may change the result or the choice of estimator *)
+Theorem ls_scale c dd dr rd rr : ~ c == 0 -> ~ rr == 0 ->
+  ls (c * dd) (c * dr) (c * rd) (c * rr) == ls dd dr rd rr.
+Proof. intros Hc Hr. unfold ls. field. split; assumption. Qed.
+
+Theorem dp_scale c dd mixed : ~ c == 0 -> ~ mixed == 0 -> dp (c * dd) (c * mixed) == dp dd mixed.
+Proof. intros Hc Hm. unfold dp. field. split; assumption. Qed.
+
+Definition den_nonzero (dr rd rr : option Q) : Prop :=
+  match rr with Some r => ~ r == 0 | None => ~ opt_or rd (opt_or dr 0) == 0 end.
+
+Theorem estimate_scale c dd dr rd rr : ~ c == 0 -> den_nonzero dr rd rr ->
+  estimate (c * dd) (oscaleq c dr) (oscaleq c rd) (oscaleq c rr) == estimate dd dr rd rr.
+Proof.
+  intros Hc H. unfold estimate, den_nonzero, oscaleq in *.
+  destruct rr as [r|], dr as [d|], rd as [x|]; simpl in *;
+    try (exfalso; apply H; reflexivity);
+    unfold ls, dp; field; repeat split; assumption.
+Qed.
+
+(* with rr present the estimate is Landy-Szalay for EVERY value of rr (no side condition: where
+   rr is zero both sides are the same undefined quotient), a missing rd replaced by dr *)
+Theorem estimate_ls_any_rr dd d rd r :
+  estimate dd (Some d) rd (Some r) == (dd - d - opt_or rd d + r) / r.
+Proof. unfold estimate. simpl. apply ls_def. Qed.
+
+(* the contrast implementation (rr with |rr| <= eps treated as absent) cannot be told from the
+   code on inputs whose rr exceeds eps ... *)
+Theorem thr_fallback_agrees_above eps dd dr rd r : eps < Qabs r ->
+  estimate_thr eps dd dr rd (Some r) = estimate dd dr rd (Some r).
+Proof.
+  intros H. unfold estimate_thr. destruct (Qleb (Qabs r) eps) eqn:E; [|reflexivity].
+  apply Qleb_le in E. exfalso. apply (Qlt_not_le _ _ H). exact E.
+Qed.
+
+(* ... and for every eps > 0 there are pair counts with rr present and non-zero on which it is not
+   the documented estimator: DD = 4 eps, DR = 2 eps, RD = RR = eps gives (DD-DR-RD+RR)/RR = 2, the
+   fallback gives DD/RD - 1 = 3 *)
+Theorem thr_fallback_refuted eps : 0 < eps ->
+  exists dd d x r, ~ r == 0 /\ Qabs r <= eps
+    /\ estimate_doc dd (Some d) (Some x) (Some r) == 2
+    /\ estimate_thr eps dd (Some d) (Some x) (Some r) == 3.
+Proof.
+  intros He. exists (4 * eps), (2 * eps), eps, eps.
+  assert (Hn : ~ eps == 0) by (intro E; rewrite E in He; discriminate).
+  assert (Ha : Qabs eps <= eps) by (rewrite Qabs_pos; [apply Qle_refl | apply Qlt_le_weak; exact He]).
+  repeat split.
+  - exact Hn.
+  - exact Ha.
+  - unfold estimate_doc. simpl. unfold ls_doc. field. exact Hn.
+  - unfold estimate_thr. apply Qleb_le in Ha. rewrite Ha. unfold estimate. simpl. unfold dp. field. exact Hn.
+Qed.
